@@ -39,7 +39,7 @@ def configs(ctx):
             out.append(dict(name=f"n{n}_{rep}", stakes=stakes, byz=byz, require_fast=(mode != "equivocate"),
                             byz_mode=mode, crashed=crash, crash_at=0,
                             seed=ctx.seed + 100 + k, gst=2000 + 400 * rep, chaos=800 + 400 * rep,
-                            drop=20 * rep, dup=20, run_ms=4000 * n + 8000))
+                            drop=20 * rep, dup=20, run_ms=min(4000 * n + 8000, 36000)))
     return out
 
 
@@ -131,7 +131,8 @@ def run(ctx):
         n_events = sum(1 for _ in open(trace))
         NT.check(ctx, "nt_" + name, trace, stakes, [i for i in range(len(stakes)) if i not in byz], config=sc)
         rej = S.validate(ctx, "tv_" + name, trace, stakes, byz, module="Trace_Progress",
-                         invs=S.TRACE_INVS + ["GoalAtEnd"], extra_consts=cfg_extra)
+                         invs=S.TRACE_INVS + ["GoalAtEnd"], extra_consts=cfg_extra,
+                         timeout=(900 if ctx.tier == "quick" else 2400))
         if rej:
             ctx.divergence(name, S.fingerprint(rej), {"config": sc, **rej})
             continue
